@@ -187,3 +187,30 @@ pub proof fn lemma_ps_identity_never_valid(g2: G2Projective, x2: G2Projective, y
     ensures !ps_valid(g2, x2, y2s, m, g_zero::<G1Projective>(), s2),   // @ob ps.identity-signature-never-valid [C07 C11]
 {
 }
+
+/// The pairing link of a signature proof: blinding a valid signature with the commitment's blinding factor
+/// and re-randomising it satisfies  e(sigma1', X~ + C) == e(sigma2', g~)  for  C = g~·bf + Σ Y~_i·m_i.
+pub proof fn lemma_ps_blinded_link(g2: G2Projective, x2: G2Projective, y2s: Seq<G2Projective>, m: Seq<Scalar>, s1: G1Projective, s2: G1Projective, bf: Scalar, r: Scalar)
+    requires ps_valid(g2, x2, y2s, m, s1, s2), r != s_zero(),
+    ensures
+        g_mul(s1, r) != g_zero::<G1Projective>(),
+        ps_pairing_ok(g_mul(s1, r), g_mul(g_add(s2, g_mul(s1, bf)), r), g_add(x2, com(g2, y2s, m, bf)), g2),   // @ob ps.blinded-signature-links-to-the-commitment [C10 C04]
+{
+    let base = ps_base(x2, y2s, m);
+    if g_mul(s1, r) == g_zero::<G1Projective>() {
+        ax_g_prime_order(s1, r);
+    }
+    // X~ + (g~·bf + Σ) == (X~ + Σ) + g~·bf
+    ax_g_add_comm(g_mul(g2, bf), ip(y2s, m));
+    ax_g_add_assoc(x2, ip(y2s, m), g_mul(g2, bf));
+    let b2 = g_add(base, g_mul(g2, bf));
+    assert(g_add(x2, com(g2, y2s, m, bf)) == b2);
+    // e(s1, b2) == e(s1, base)·e(s1, g~·bf) == e(s2, g~)·e(s1·bf, g~) == e(s2 + s1·bf, g~)
+    lemma_pairing_check_form(s1, base, s2, g2);
+    ax_pair_add_right(s1, base, g_mul(g2, bf));
+    ax_pair_scalar(s1, g2, bf);
+    ax_pair_add_left(s2, g_mul(s1, bf), g2);
+    assert(pair(s1, b2) == pair(g_add(s2, g_mul(s1, bf)), g2));
+    lemma_pair_pow(s1, b2, g_add(s2, g_mul(s1, bf)), g2, r);
+    lemma_pairing_check_form(g_mul(s1, r), b2, g_mul(g_add(s2, g_mul(s1, bf)), r), g2);
+}
